@@ -25,7 +25,7 @@ from ..model import AnalysisError, ClassInfo, FunctionInfo
 from ..numdom import AV, INF, NumError, NumEval
 from ..pitlib import analyse_masker, masker_classes, pit_layer_classes, registered_buffers
 from ..sym import NONE, Term, mentions, show, subterms
-from ..util import (SELF, arg, callee, is_call, method_call, paths, returning, short, where)
+from ..util import (SELF, arg, attr_classes, callee, is_call, method_call, paths, returning, short, where)
 from . import c05, c10
 
 EXPLANATION = ('Key and rank agreement between MPS layers and the default cost specification / '
@@ -453,11 +453,97 @@ def norm_constants_positive(ctx, ci: ClassInfo, gen: FunctionInfo) -> bool:
     return ok
 
 
+def r12e(ctx, rule='R12e'):
+    """Fully open = original size: where a masker's theta is multiplied by a normalisation
+    buffer, the buffer must be the reciprocal of the FULL parameter count at the position
+    every mask parameter contributes to (the masker's always-alive anchor; C has ones in both
+    extreme columns of that row), and must not claim the full count at the opposite extreme
+    unless C is full there too.  Otherwise theta*norm != 1 for an open mask and k_eff != K."""
+    from ..anchor import AnchorError, E, S
+    from ..pitlib import norm_full_at
+    repo = ctx.repo
+    n = 0
+    for ci in pit_layer_classes(repo):
+        bufs = registered_buffers(repo, ci)
+        init = ci.methods.get('__init__')
+        if init is None:
+            continue
+        # buffer -> (generator, component) through tuple unpacking of self.<gen>()
+        gens = {}
+        for name, (val, _i) in bufs.items():
+            t = val
+            k = 0
+            if t[0] == 'sub' and t[2][0] == 'const' and isinstance(t[2][1], int):
+                k, t = t[2][1], t[1]
+            mc = method_call(t)
+            if mc and mc[0] == SELF and not mc[2]:
+                g = repo.find_method(ci, mc[1])
+                if g is not None:
+                    gens[name] = (g, k)
+        if not gens:
+            continue
+        for f in ci.methods.values():
+            for p in returning(paths(repo, f)):
+                for e in p.events:
+                    if e.kind != 'call':
+                        continue
+                    t = e.data[0]
+                    if not (is_call(t, 'torch.mul', 'torch.multiply') and len(t[2]) == 2):
+                        continue
+                    a, b = t[2]
+                    for x, y in ((a, b), (b, a)):
+                        if not (y[0] == 'attr' and y[1] == SELF and y[2] in gens):
+                            continue
+                        src = [z for z in subterms(x) if z[0] == 'attr' and z[2] == 'theta' and
+                               z[1][0] == 'attr' and z[1][1] == SELF]
+                        if len(src) != 1:
+                            continue
+                        mattr = src[0][1][2]
+                        mcls = [c for c in attr_classes(repo, ci, mattr) if repo.find_getter(c, 'theta')]
+                        if not mcls:
+                            continue
+                        key = (ci.name, y[2], mattr)
+                        mi = analyse_masker(repo, mcls[0])
+                        if mi.error or mi.alive is None:
+                            raise AnalysisError(f'{rule}: masker {mcls[0].name} not modelled')
+                        g, k = gens[y[2]]
+                        try:
+                            full, A = norm_full_at(repo, g, k)
+                        except AnchorError as ex:
+                            n += 1
+                            ctx.ob(rule, f'{ci.name}.{y[2]} anchored like {mattr}.theta', False,
+                                   f'normalisation constant not of the form 1/(count - excluded): '
+                                   f'{ex}', where(g))
+                            continue
+                        n += 1
+                        bad = []
+                        for pos in (S, E):
+                            row_full = mi.c is None or (mi.c.at[(pos, S)] is True and
+                                                        mi.c.at[(pos, E)] is True)
+                            if mi.alive.get(pos) and row_full and full[pos] is not True:
+                                bad.append(f'at {pos} every parameter of {mattr} contributes '
+                                           f'(always-alive position) but the constant there is '
+                                           f'not provably 1/{short(A, 40)}')
+                            if full[pos] is True and mi.c is not None and \
+                                    (mi.c.at[(pos, S)] is False or mi.c.at[(pos, E)] is False):
+                                bad.append(f'the constant at {pos} is 1/{short(A, 40)} (full '
+                                           f'count) although not every parameter of {mattr} '
+                                           f'reaches that position')
+                        ctx.ob(rule, f'{ci.name}.{y[2]} anchored like {mattr}.theta', not bad,
+                               f'full count 1/{short(A, 40)} exactly at the always-alive position '
+                               f'of {mcls[0].name}' if not bad else
+                               '; '.join(bad) + ': with every mask open theta*norm != 1 and the '
+                               'effective kernel size differs from the original one', where(g),
+                               full=str(full), alive=str(mi.alive))
+    ctx.floor(rule, 'normalised masker products', n, 2)
+
+
 def run(ctx):
     r12a(ctx)
     r12b(ctx)
     r12c(ctx)
     r12d(ctx)
+    r12e(ctx)
 
 
 MANIFEST = {
